@@ -26,13 +26,32 @@ the UTF-16 decoding of the consumed bytes and consume exactly the encoding; enco
 parsed value) must give exactly the reference bytes; input cut inside a member, ill-formed UTF-16 (a lone surrogate half in a
 single wchar, a pair cut by the count, low before high) and strings with unpaired surrogates must be refused.  Violations carry a
 self-contained script as well.
+
+Section 8, the 'falsy members' family (harness/v9_c05.py): encoding is the inverse of decoding BYTE FOR BYTE also for the values
+that are falsy in Python or equal to the value the library substitutes for a missing member - IEEE negative zero (float16 / float
+/ double), +0.0, 0, b"\x00", NUL, enum / flag value 0 (with and without a named member), null pointers, empty null-terminated /
+zero-length / expression-sized / EOF arrays and texts, all-zero nested structures - when the scalar is a MEMBER of a generated
+structure (also a bit-field, an array element, a member of a nested structure or of an array of structures; compiled /
+interpreted; aligned / packed; cs.load / cs.loadfile; '<', '>', '!', endianness switched after loading).  The reference bytes are
+decoded through the public entry points (T(bytes / bytearray / memoryview / stream / real file), reads, read, cs.read) - floats
+compared by bit pattern - and the parsed value as well as the same value built by keyword, positionally or by attribute
+assignment is encoded through dumps / instance.dumps / bytes() / write / instance.write: exactly the reference bytes (NaN members
+by class only).
+
+Section 9, the 'array forms x endianness x entry points' family (harness/v9_c05arr.py): every scalar family as the element of
+every array form - x[n], x[expression], x[] null-terminated, x[EOF], x[a][b], and the single scalar - made through the API
+(cs.T[n], cs.T[None], cs.T[Expression(cs, "EOF")], cs.resolve), a typedef, a structure member or a typedef'd member, the
+definition loaded by cs.load, cs.loadfile, the legacy parser or built with cs._make_struct; the endianness set in the constructor,
+by assignment before loading, after loading, and flipped between two reads of the SAME bytes (which then must give the values
+of the other byte order) and back; every phase decodes and encodes through seeded entry points.  The elements are the standard
+decodings of the element-size slices under the endianness current at the call; encoding is the inverse.
 """
 from __future__ import annotations
 
 import io
 import struct
 
-from .. import common, impl, v4_c05, v5_c05
+from .. import common, impl, v4_c05, v5_c05, v9_c05, v9_c05arr
 from ..common import A, Case, Result, mkrng, parse_sexp, run_driver, sx
 
 INTS = {  # canonical name -> (size, signed)
@@ -142,7 +161,18 @@ def run(env) -> Result:
                 "compiled/interpreted, aligned/packed); {<,>,!} and endianness switched after loading - decode (bytes, stream at an offset "
                 "with bytes behind, reads, read) must equal the UTF-16 decoding of exactly the consumed bytes, encode (dumps, instance.dumps, "
                 "write, dumps of the parsed value) its inverse; cut input, ill-formed UTF-16 (lone surrogate halves) and strings with "
-                "unpaired surrogates must be refused. Each case: independent oracle vs real library vs Lean model. "
+                "unpaired surrogates must be refused; falsy-member trials: generated structures (compiled/interpreted, aligned/packed, load/loadfile, "
+                "{<,>,!}, endianness switched after loading) whose members - every scalar family, bit-fields, pointers, enums/flags, every array "
+                "form, nested structures and arrays of them - hold values that are falsy or equal to the default (-0.0, +0.0, 0, NUL, enum 0, null "
+                "pointer, empty arrays/texts) mixed with subnormals, infinities, NaNs and boundary values: decode through seeded entry points "
+                "(bytes, bytearray, memoryview, stream, file, reads, read, cs.read) gives the member values by BIT PATTERN and the end position, "
+                "the parsed value and the value built by keyword / positionally / by attribute assignment encode (dumps, instance.dumps, bytes(), "
+                "write, instance.write) to exactly the reference bytes (NaNs by class); array-form trials: every scalar family as element of "
+                "x[n], x[expression], x[] null-terminated, x[EOF], x[a][b] and alone, made through the API (cs.T[n], cs.T[None], "
+                "cs.T[Expression(EOF)]), a typedef, a structure member or a typedef'd member, loaded by load / loadfile / the legacy parser / "
+                "cs._make_struct, endianness set in the constructor / before loading / after loading / flipped between two reads of the same "
+                "bytes and back: in every phase the elements are the standard decoding of the element-size slices under the CURRENT endianness "
+                "(every entry point), encoding is the inverse. Each case: independent oracle vs real library vs Lean model. "
                 "distinct = (type, endian, value/bytes); non-trivial = multi-byte or non-zero")
     R = Runner(env, res)
     rnd = mkrng(env["seed"], "c05")
@@ -365,6 +395,12 @@ def run(env) -> Result:
 
     # ---- 7. wide text: characters outside the BMP (surrogate pairs) through every wchar form
     v5_c05.run(R, mkrng(env["seed"], "c05-wide"), tier)
+
+    # ---- 8. falsy members: -0.0, 0, empty texts, enum 0, null pointers as members of generated structures, byte for byte
+    v9_c05.run(R, mkrng(env["seed"], "c05-falsy"), tier)
+
+    # ---- 9. every array form x every endianness x every entry point
+    v9_c05arr.run(R, mkrng(env["seed"], "c05-arrays"), tier)
 
     # ---- model correspondence
     answers = run_driver(R.lines) if env["driver_ok"] else [None] * len(R.lines)
